@@ -6,6 +6,7 @@ import (
 	"encoding/json"
 	"math/rand"
 	"os"
+	"strconv"
 	"strings"
 
 	"github.com/cloudflare/pat-go/quicwire"
@@ -258,6 +259,8 @@ func execWire(c *ctx, in ev) []ev {
 			b, honest = ma, false
 		}
 		return out
+	case "Api":
+		return []ev{execApi(m, gB(in, "a"), gB(in, "b"))}
 	case "Enc":
 		var outb []byte
 		o := observe(measure, func() { outb = encodeVal(m, in["val"]) })
@@ -291,6 +294,45 @@ func execWire(c *ctx, in ev) []ev {
 		return out
 	}
 	return []ev{{"op": "unknown"}}
+}
+
+// execApi exercises the small accessors next to the codecs - Equal / Equals, Type, TruncatedTokenKeyID - on two
+// encodings a, b of message m. These are beyond the listed properties: Trace_Codec states their law
+// (Equal <=> the two decode to the same value; Type = the tag; truncated id = the key id byte) and rejections are
+// reported as observations, never as violations.
+func execApi(m string, a, b []byte) ev {
+	e := ev{"op": "Api", "m": m, "a": B(a), "b": B(b), "ok": false, "equal": false, "type": -1, "trunc": -1, "panic": ""}
+	e["panic"] = guard(func() {
+		switch m {
+		case "t1req":
+			x, y := new(type1.BasicPrivateTokenRequest), new(type1.BasicPrivateTokenRequest)
+			if x.Unmarshal(append([]byte{}, a...)) && y.Unmarshal(append([]byte{}, b...)) {
+				e["ok"], e["equal"], e["type"], e["trunc"] = true, x.Equal(*y), int(x.Type()), int(x.TruncatedTokenKeyID())
+			}
+		case "t2req":
+			x, y := new(type2.BasicPublicTokenRequest), new(type2.BasicPublicTokenRequest)
+			if x.Unmarshal(append([]byte{}, a...)) && y.Unmarshal(append([]byte{}, b...)) {
+				e["ok"], e["equal"], e["type"], e["trunc"] = true, x.Equal(*y), int(x.Type()), int(x.TruncatedTokenKeyID())
+			}
+		case "t3req":
+			x, y := new(type3.RateLimitedTokenRequest), new(type3.RateLimitedTokenRequest)
+			if x.Unmarshal(append([]byte{}, a...)) && y.Unmarshal(append([]byte{}, b...)) {
+				e["ok"], e["equal"], e["type"] = true, x.Equal(*y), int(x.Type())
+			}
+		case "t5req":
+			x, y := new(type5.BatchedPrivateTokenRequest), new(type5.BatchedPrivateTokenRequest)
+			if x.Unmarshal(append([]byte{}, a...)) && y.Unmarshal(append([]byte{}, b...)) {
+				e["ok"], e["equal"], e["type"], e["trunc"] = true, x.Equal(*y), int(x.Type()), int(x.TruncatedTokenKeyID())
+			}
+		case "challenge":
+			x, err1 := tokens.UnmarshalTokenChallenge(append([]byte{}, a...))
+			y, err2 := tokens.UnmarshalTokenChallenge(append([]byte{}, b...))
+			if err1 == nil && err2 == nil {
+				e["ok"], e["equal"], e["type"] = true, x.Equals(y), int(x.TokenType)
+			}
+		}
+	})
+	return e
 }
 
 // ---------------------------------------------------------------------------
@@ -697,6 +739,28 @@ func genWire(c *ctx, emit func(ev)) {
 		emit(ev{"op": "Enc", "m": "batchreq", "val": reqs})
 	}
 
+	// accessors next to the codecs (beyond the listed properties): every honest message against itself, against the
+	// other honest messages of its kind and against single-bit variants of itself
+	for i, h := range hs {
+		switch h.m {
+		case "t1req", "t2req", "t3req", "t5req", "challenge":
+		default:
+			continue
+		}
+		emit(ev{"op": "Api", "m": h.m, "a": B(h.b), "b": B(h.b)})
+		for j, g := range hs {
+			if g.m == h.m && j != i {
+				emit(ev{"op": "Api", "m": h.m, "a": B(h.b), "b": B(g.b)})
+			}
+		}
+		for k := 16; k < 32 && k < 8*len(h.b); k++ { // the two bytes after the tag (key id byte, first length / content byte)
+			emit(ev{"op": "Api", "m": h.m, "a": B(h.b), "b": B(flipBit(h.b, k))})
+		}
+		for k := 0; k < c.tierInt(24, 200); k++ {
+			emit(ev{"op": "Api", "m": h.m, "a": B(h.b), "b": B(flipBit(h.b, 16+r.Intn(8*len(h.b)-16)))})
+		}
+	}
+
 	// object reuse: either the sequences TLC generated (Gen_Reuse), or seeded ones
 	genReuse(c, r, hs, emit)
 }
@@ -710,11 +774,24 @@ func alnum(r *rand.Rand, n int) []byte {
 	return b
 }
 
+// tierInt: a count for the quick / thorough tier. In the thorough tier a count that grows with the tier is
+// multiplied by VERIF_DEPTH (default 1; the checks set a per-property default so that thorough runs take minutes).
 func (c *ctx) tierInt(q, t int) int {
 	if c.thorough() {
+		if t > q {
+			return t * depthFactor()
+		}
 		return t
 	}
 	return q
+}
+
+func depthFactor() int {
+	d, err := strconv.Atoi(os.Getenv("VERIF_DEPTH"))
+	if err != nil || d < 1 {
+		return 1
+	}
+	return d
 }
 
 // genReuse concretises abstract reuse behaviours: a behaviour is a string over
